@@ -210,6 +210,36 @@ def check_case(case):
                 return Verdict("fail", "%s walker from %s: %s; input %s container=%r" % (builder, label, msg, short(text, 160), container),
                                "%s:%s" % (builder, msg.split(":")[0][:40] if msg.startswith("token") is False else msg.split(": ", 1)[1][:40]),
                                nontrivial=True, classes=classes)
+            # the walker object itself: walking it again - also after a walk that was abandoned half way - gives the same stream,
+            # and html5lib's own concatenateCharacterTokens (used by treewalkers.pprint) agrees with ours
+            try:
+                w = h5.walk(node, builder)
+                it = iter(w)
+                for _ in range(min(len(toks) // 2, 1 + len(text) % 5)):
+                    next(it)
+                again = list(w)
+                zipped = [a for a, b in zip(h5.walk(node, builder), w)]
+            except Exception as e:
+                return Verdict("fail", "%s walker object raised %s: %s when walked again after an abandoned walk (from %s); input %s" % (builder, type(e).__name__, short(str(e), 80), label, short(text, 150)),
+                               "%s:rewalk-exception:%s" % (builder, type(e).__name__), nontrivial=True, classes=classes)
+            if again != toks or zipped != toks:
+                return Verdict("fail", "%s walker object gives a different stream when walked again after an abandoned walk (from %s); input %s" % (builder, label, short(text, 150)),
+                               "%s:rewalk-differs" % builder, nontrivial=True, classes=classes)
+            from html5lib.treewalkers import concatenateCharacterTokens
+            theirs = [{"type": "Characters*", "data": t["data"]} if t["type"] == "Characters" and "name" not in t else t for t in concatenateCharacterTokens(iter(toks))]
+            ours = []
+            for t in toks:
+                if t["type"] in ("Characters", "SpaceCharacters"):
+                    if ours and ours[-1]["type"] == "Characters*":
+                        ours[-1] = {"type": "Characters*", "data": ours[-1]["data"] + t["data"]}
+                    else:
+                        ours.append({"type": "Characters*", "data": t["data"]})
+                else:
+                    ours.append(t)
+            if theirs != ours:
+                k = next((i for i, (a, b) in enumerate(zip(theirs, ours)) if a != b), min(len(theirs), len(ours)))
+                return Verdict("fail", "treewalkers.concatenateCharacterTokens differs from plain concatenation at token %d (%s vs %s); %s walker from %s; input %s"
+                               % (k, short(theirs[k:k + 1], 80), short(ours[k:k + 1], 80), builder, label, short(text, 150)), "concatenate-differs", nontrivial=True, classes=classes)
             if label in ("document", "fragment"):
                 streams[builder] = (toks, want)
     if "etree" in streams and "dom" in streams:
